@@ -154,7 +154,8 @@ def native_cases() -> t.List[dict]:
     strs = ["hello world", "Hello", "  pad  ", "", "a,b,c", "ÄÖü straße", "x"]
     for f in ["upper", "lower", "length", "trim", "ltrim", "rtrim", "reverse", "ascii", "md5", "sha1", "base64", "soundex", "char_length", "bit_length", "ucase", "lcase", "hex", "sha"]:
         for v in strs:
-            out.append(case(N, f, C(v, "string")))
+            # on DuckDB soundex is sqlframe's OWN Python function (util.soundex registered as SOUNDEX)
+            out.append(case("emul:soundex" if f == "soundex" else N, f, C(v, "string")))
     for v in ["aGVsbG8=", "eA==", ""]:
         out.append(case(N, "unbase64", C(v, "string")))
     for v in strs:
@@ -287,8 +288,21 @@ def composition_cases() -> t.List[dict]:
     return out
 
 
+SOUNDEX_NAMES = [
+    "Ashcraft", "Ashcroft", "Tymczak", "Pfister", "Honeyman", "Robert", "Rupert", "Rubin", "Schwarz", "Sawhney", "Lowhill",
+    "Wheaton", "Burroughs", "Burrows", "Chwhs", "bhp", "BWF", "Schschs", "kHq", "dwt", "mhn", "Lhl", "rwr", "Jackson", "Lloyd",
+    "a", "H", "hh", "Whw", "Hwhb", "O'Hara", "van der Berg", "Smith-Jones", "Mc Hugh", "Tsch3ch", "peters", "UHRBACH", "x9s", "Czs z",
+    "3M", "-dash", " lead", "9", "",
+]
+
+
+def soundex_cases() -> t.List[dict]:
+    """names with H / W between same-coded consonants, same-coded neighbours, non-letters inside, non-letter first"""
+    return [case("emul:soundex", "soundex", C(n, "string")) for n in SOUNDEX_NAMES]
+
+
 def all_cases() -> t.List[dict]:
-    cs = emulation_cases() + native_cases() + aggregate_cases() + composition_cases()
+    cs = emulation_cases() + native_cases() + aggregate_cases() + composition_cases() + soundex_cases()
     for i, c in enumerate(cs):
         c["id"] = f"{i}:{c['fn']}"
     return cs
@@ -299,14 +313,36 @@ def all_cases() -> t.List[dict]:
 # ------------------------------------------------------------------------------------------------
 
 
+def random_name(rng: random.Random) -> str:
+    """an ASCII name biased towards same-coded consonants separated by H / W / vowels / non-letters"""
+    classes = ["bfpv", "cgjkqsxz", "dt", "l", "mn", "r"]
+    out = [rng.choice("abcdefghijklmnopqrstuvwxyz")]
+    for _ in range(rng.randint(0, 7)):
+        r = rng.random()
+        if r < 0.35 and len(out) >= 1:
+            cls = next((c for c in classes if out[-1].lower() in c), rng.choice(classes))
+            sep = rng.choice(["", "h", "w", "hw", "a", "y", "-", " ", "1", "hh"])
+            out.append(sep + rng.choice(cls))
+        elif r < 0.5:
+            out.append(rng.choice("hw"))
+        elif r < 0.6:
+            out.append(rng.choice("' -.9"))
+        else:
+            out.append(rng.choice("abcdefghijklmnopqrstuvwxyz"))
+    s = "".join(out)
+    return s.upper() if rng.random() < 0.15 else (s.capitalize() if rng.random() < 0.5 else s)
+
+
 def random_emulation_cases(rng: random.Random, n: int) -> t.List[dict]:
     out: t.List[dict] = []
-    kinds = ["factorial", "element_at", "try_element_at", "getItem", "slice", "array_position", "sequence", "rint", "overlay", "date_add", "date_sub", "array_min", "array_max"]
+    kinds = ["soundex", "soundex", "factorial", "element_at", "try_element_at", "getItem", "slice", "array_position", "sequence", "rint", "overlay", "date_add", "date_sub", "array_min", "array_max"]
     for i in range(n):
         k = kinds[i % len(kinds)] if i < 4 * len(kinds) else rng.choice(kinds)
         ln = rng.randint(1, 7)
         xs = [rng.randint(-20, 20) for _ in range(ln)]
-        if k == "factorial":
+        if k == "soundex":
+            out.append(case("emul:soundex", k, C(random_name(rng), "string")))
+        elif k == "factorial":
             out.append(case("emul:factorial", k, C(rng.randint(0, 20), "int")))
         elif k in ("element_at", "try_element_at"):
             idx = rng.choice([j for j in range(-(ln + 2), ln + 3) if j != 0])
